@@ -487,4 +487,16 @@ def agree (impl : Option Outcome) (model : Outcome) : Bool :=
   | some a, b => a == b
   | none, _ => false
 
+/-- same status (accepted / rejected / nothing pending), whatever the returned values and events -/
+def statusAgree (impl : Option Outcome) (model : Outcome) : Bool :=
+  match impl, model with
+  | some .fail, .fail => true
+  | some .fail, _ => false
+  | some .nopending, .nopending => true
+  | some .nopending, _ => false
+  | some _, .fail => false
+  | some _, .nopending => false
+  | some _, _ => true
+  | none, _ => false
+
 end Axelar.Driver
